@@ -14,5 +14,15 @@ CHECKS = {
         "technique": "exhaustive small-scope input enumeration against a reference implementation",
     },
 }
+
+_E2 = "explicit-state BFS over API operation histories replayed on fresh real contexts (one actor task per context, controlled loop, default schedule), deduplicated by canonical (model, implementation) state, compared with a reference model on every transition plus a sweep of all lookup APIs in every reached state"
+CHECKS.update({
+    "C02": {"engine": "E2", "text": "All histories of new/enter/leave/add_resource/add_resource_factory/generating lookups up to the stated depth over <=4 contexts are replayed on real contexts; after every step every lookup API is asked for every (type,name) in every open context and compared with a model in which a child is a snapshot of its parent at construction.", "design_ref": "DESIGN.md 5 C02", "note": "bounded depth/contexts/keys; sequential histories (no concurrency inside a history)", "technique": "explicit-state BFS over operation histories of the real API against a reference model"},
+    "C03": {"engine": "E2", "text": "All histories of succeeding and failing add_resource/add_resource_factory calls (conflict on first/second type, 11 invalid-argument forms) and lookups in a context and its child; failing calls must leave get_resources, all lookups, listeners and the teardown callbacks run at unwinding equal to the model in which the call never happened; hand-out stability per (context, pair).", "design_ref": "DESIGN.md 5 C03", "note": "bounded depth; 'observably unchanged' judged through the public API only", "technique": "explicit-state BFS over operation histories of the real API against a reference model"},
+    "C04": {"engine": "E2+E1", "text": "Sequential part: BFS over factory registration/lookup/child-creation histories comparing factory body executions and returned objects per context with the model. Racing part: 2-3 tasks look up the same factory-backed pair through method/shortcut/@inject while the async factory is parked at a gate; all completion orders and injected preemptions within the deviation bound.", "design_ref": "DESIGN.md 5 C04", "note": "bounded; factories that raise are outside the statement", "technique": "explicit-state BFS over histories + stateless bounded schedule exploration of racing lookups on a controlled event loop"},
+    "C13": {"engine": "E2", "text": "All histories of enter/leave (clean, exception, cancellation, raising teardown)/re-enter and the five context operations in the states never-entered, open, inside a teardown callback and closed, compared with a four-state reference machine; denied calls must raise RuntimeError and leave get_resources, listeners and later teardown unchanged.", "design_ref": "DESIGN.md 5 C13", "note": "<=2 contexts; closing state reached via a first-registered teardown callback", "technique": "explicit-state BFS over lifecycle histories of the real API against a reference state machine"},
+    "C18": {"engine": "E2", "text": "All histories of succeeding and failing add/factory/lookup operations over <=3 contexts with a stream_events listener on every context; per-context event lists (types, name, description, is_factory) are compared with the model after every step.", "design_ref": "DESIGN.md 5 C18", "note": "bounded depth; event types in the taken-type corner may be the factory's types or the registered subset", "technique": "explicit-state BFS over operation histories of the real API against a reference model"},
+})
+
 _todo = ["C02","C03","C04","C05","C06","C07","C08","C09","C10","C11","C12","C13","C14","C15","C16","C18","C19"]
 NOT_APPLICABLE = [{"property_id": c, "reason": "check under construction in this session (designed in DESIGN.md section 5); not claimed until its harness is committed"} for c in _todo if c not in CHECKS]
